@@ -1,7 +1,7 @@
 (* C08 -- The generated Python state machine executes exactly the transition table. *)
 From Coq Require Import String List Bool Arith.
 From KV Require Import Lib.TableDef Model.TTable Model.PyShape Spec.TableInterp Gen.PyTmpl Model.PySM
-                       Proofs.PySMGen Proofs.PySMSem.
+                       Proofs.PySMGen Proofs.PySMSem Model.PySyncIR Gen.PySync Model.PyTrigger Proofs.PyTriggerProofs.
 Import ListNotations.
 Open Scope string_scope.
 
@@ -15,6 +15,19 @@ Theorem C08_sem : forall t, wf_table t = true -> forall evs gv,
   exists prog, parse_indent (gen_py t) = Some prog /\ run_py prog evs gv = Some (table_interp t evs gv).
 Proof. exact py_sem. Qed.
 Print Assumptions C08_sem.
+
+(* "For each triggered event": the same, with the machine driven through Trigger<Event> in non-threaded mode
+   (StateMachineThread = 0).  What Trigger does is read from the synchronisation IR that translator/pysync.py extracts
+   from the template's PER_EVENT block (Gen/PySync.v, the IR property C11 uses for the threaded mode): with the private
+   flag runThreaded false it calls self.process(event) synchronously exactly once and touches neither queue nor thread. *)
+Theorem C08_sem_triggered : forall t, wf_table t = true -> forall evs gv,
+  exists prog, parse_indent (gen_py t) = Some prog /\ run_triggered prog evs gv = Some (table_interp t evs gv).
+Proof. exact py_sem_triggered. Qed.
+Print Assumptions C08_sem_triggered.
+
+Example C08_sem_triggered_nonvacuous : trigger_calls_unthreaded = Some 1.
+Proof. vm_compute. reflexivity. Qed.
+Print Assumptions C08_sem_triggered_nonvacuous.
 
 (* The machine starts in the first row's start state after that state's entry callback (and nothing else). *)
 Theorem C08_init : forall t, wf_table t = true -> forall gv,
